@@ -685,8 +685,13 @@ int runCheck(const Opts &o, Check<Inst> &c) {
       bool same = false;
       for (auto &w : again) if (w.cls == v.cls) same = true;
       if (!same) {
-        R.harnessError = "violation of class '" + v.cls + "' did not reproduce on replay of " + v.inst;
-        break;
+        // The verdict was produced by the real code inside a worker that had evaluated other instances before, and does
+        // not recur in a fresh process: the outcome depends on the history of the process (state left behind by earlier
+        // calls). That is a property of the code under test, not of the harness (whose determinism is established on the
+        // unchanged tree), so the violation stands; it is only marked.
+        v.msg = "[depends on earlier evaluations in the same process: not reproduced by a solitary replay] " + v.msg;
+        R.counters["violations_not_reproduced_in_isolation"]++;
+        continue;
       }
       R.counters["violations_replayed"]++;
     }
